@@ -342,7 +342,7 @@ func genRWCase(rng *rand.Rand) *rwCase {
 		}
 		switch rng.Intn(8) {
 		case 0, 1:
-			c.Ops = append(c.Ops, rwOp{Op: "header", Code: 100 + rng.Intn(500)})
+			c.Ops = append(c.Ops, rwOp{Op: "header", Code: 100 + rng.Intn(900)})
 		case 2:
 			c.Ops = append(c.Ops, rwOp{Op: "write", N: rng.Intn(65)})
 		case 3:
@@ -470,7 +470,7 @@ func judgeRW(w *core.W, c *rwCase) {
 }
 
 func runC13(r *core.Run) {
-	r.Rule("random operation sequences (0-12) over WriteHeader(100..599), Write(0..64 bytes), Flush, Before(fn) (registered before and after the first write; one in six functions registers another function while it runs), reads; all nine methods (HEAD over-represented); underlying writer with/without Flusher; fault injection: the k-th underlying Write is short, fails, or both; 1/5 of sequences run inside a handler on Context.ResponseWriter(). Oracle: 20-line state machine predicting every forwarded call, every Status/Size/Written reading and every Write result, plus predicates on the spy log (one status line, first; no body for HEAD; hooks once, reverse order, before the status line, seeing Written()==false). non-trivial = distinct sequences whose first status-sending op is not WriteHeader, or with >=2 hooks before it, or a second WriteHeader, or HEAD with a body write, or a fired fault")
+	r.Rule("random operation sequences (0-12) over WriteHeader(100..999), Write(0..64 bytes), Flush, Before(fn) (registered before and after the first write; one in six functions registers another function while it runs), reads; all nine methods (HEAD over-represented); underlying writer with/without Flusher; fault injection: the k-th underlying Write is short, fails, or both; 1/5 of sequences run inside a handler on Context.ResponseWriter(). Oracle: 20-line state machine predicting every forwarded call, every Status/Size/Written reading and every Write result, plus predicates on the spy log (one status line, first; no body for HEAD; hooks once, reverse order, before the status line, seeing Written()==false). non-trivial = distinct sequences whose first status-sending op is not WriteHeader, or with >=2 hooks before it, or a second WriteHeader, or HEAD with a body write, or a fired fault")
 	r.Assume("before-functions only record, read accessors and do not re-enter Write/WriteHeader (that deadlocks on sync.Once by Go's documented semantics)")
 	c13Canaries(r)
 	n := r.N(300000, 20000000)
